@@ -33,6 +33,7 @@ def run(ctx):
     ctx.guard(rule_b, ctx, ix, reg)
     ctx.guard(rule_c, ctx, ix, reg)
     ctx.guard(rule_d, ctx, ix, reg)
+    ctx.guard(rule_e, ctx, ix, reg)
 
 
 def rule_a(ctx, ix, reg):
@@ -271,3 +272,129 @@ def _resolves(ix, dotted):
     if m is not None and (name in m.defs or name in m.imports):
         return True
     return False
+
+
+# ---------------------------------------------------------------------------------------
+def _module_func(ix, caller, call):
+    """The module-level function a plain-name call refers to (same module), or None."""
+    if isinstance(call.func, ast.Name):
+        return ix.functions.get('%s.%s' % (caller.module.name, call.func.id))
+    return None
+
+
+def _saved_expr(ix, func, key, depth=0):
+    """(expression stored under ``key``, function that stores it) following the saver through the savers it builds on."""
+    from ..util import dict_literal_keys
+    for n in ast.walk(func.node):
+        d = dict_literal_keys(n) if isinstance(n, (ast.Dict, ast.Call)) else None
+        if d and key in d:
+            return d[key], func
+        if isinstance(n, ast.Assign) and isinstance(n.targets[0], ast.Subscript) and isinstance(n.targets[0].slice, ast.Constant) \
+                and n.targets[0].slice.value == key:
+            return n.value, func
+    if depth < 6:
+        for c in calls_in(func.node):
+            g = _module_func(ix, func, c)
+            if g is not None and g is not func and len(c.args) >= 2:
+                r = _saved_expr(ix, g, key, depth + 1)
+                if r is not None:
+                    return r
+    return None
+
+
+def _shape(e, owner, depth=0):
+    """Layout of a saved value: I = a reference handed out by context.id, D = a nested record made by context.do, V = a plain
+    value, [..] = a fixed sequence, ['*', s] = any number of s."""
+    if depth > 6 or e is None:
+        return 'V'
+    if isinstance(e, ast.Call):
+        nm = call_name(e)
+        if isinstance(e.func, ast.Attribute) and nm == 'id' and unparse(e.func.value) == 'context':
+            return 'I'
+        if isinstance(e.func, ast.Attribute) and nm == 'do' and unparse(e.func.value) == 'context':
+            return 'D'
+        if isinstance(e.func, ast.Name) and nm in ('list', 'tuple', 'sorted') and len(e.args) == 1:
+            return _shape(e.args[0], owner, depth + 1)
+        if isinstance(e.func, ast.Name) and nm == 'map' and len(e.args) == 2:
+            f0 = e.args[0]
+            inner = 'I' if unparse(f0) == 'context.id' else ('D' if unparse(f0) == 'context.do' else 'V')
+            return ['*', inner]
+        if isinstance(e.func, ast.Name):
+            # a helper defined inside the saver: the layout of what it returns
+            for d in ast.walk(owner.node):
+                if isinstance(d, ast.FunctionDef) and d.name == e.func.id and d is not owner.node:
+                    rets = [r for r in ast.walk(d) if isinstance(r, ast.Return) and r.value is not None]
+                    if len(rets) == 1:
+                        return _shape(rets[0].value, owner, depth + 1)
+        return 'V'
+    if isinstance(e, (ast.List, ast.Tuple)):
+        return [_shape(x, owner, depth + 1) for x in e.elts]
+    if isinstance(e, (ast.ListComp, ast.GeneratorExp, ast.SetComp)):
+        return ['*', _shape(e.elt, owner, depth + 1)]
+    if isinstance(e, ast.IfExp):
+        a, b = _shape(e.body, owner, depth + 1), _shape(e.orelse, owner, depth + 1)
+        return a if a == b else ['|', a, b]
+    return 'V'
+
+
+def _reader(ix, func, rec, key, depth=0):
+    """The loader function that reads rec[key]: ``func`` itself, or the loader it hands the record to."""
+    for n in ast.walk(func.node):
+        if isinstance(n, ast.Subscript) and isinstance(n.value, ast.Name) and n.value.id == rec and isinstance(n.slice, ast.Constant) \
+                and n.slice.value == key:
+            return func
+        if isinstance(n, ast.Call) and call_name(n) == 'get' and isinstance(n.func, ast.Attribute) and unparse(n.func.value) == rec \
+                and n.args and isinstance(n.args[0], ast.Constant) and n.args[0].value == key:
+            return func
+    if depth < 6:
+        for c in calls_in(func.node, nested=True):
+            g = _module_func(ix, func, c)
+            if g is not None and g is not func and c.args and unparse(c.args[0]) == rec and g.params:
+                r = _reader(ix, g, g.params[0], key, depth + 1)
+                if r is not None:
+                    return r
+    return None
+
+
+def rule_e(ctx, ix, reg):
+    """A loader may leave the reading of a key to the loader of another version only when both versions store that key in the
+    same layout.  (C12.c compares the key NAMES of each version; a version-3 loader that hands its record to the version-4
+    loader reads the right names and the wrong layout.)"""
+    R = 'C12.e'
+    ctx.describe(R, 'a key that is read by the loader of another version is stored in the same layout by both versions', floor=20)
+    n = 0
+    for t in sorted(set(reg.savers) & set(reg.loaders)):
+        vers = sorted(set(reg.savers[t]) & set(reg.loaders[t]))
+        if len(vers) < 2:
+            continue
+        by_func = {id(reg.loaders[t][v].raw_node): v for v in sorted(reg.loaders[t])}
+        for v in vers:
+            sv, ld = reg.savers[t][v], reg.loaders[t][v]
+            if ld.cls is not None or sv.cls is not None or not ld.params:
+                continue          # method pairs (__gluestate__) have one version
+            keys = set()
+            objcls = ix.classes.get(t)
+            try:
+                keys = set(reg.saver_info(sv, objcls).keys)
+            except Exception:
+                continue
+            for k in sorted(keys):
+                rd = _reader(ix, ld, ld.params[0], k)
+                if rd is None or rd is ld:
+                    continue
+                m = by_func.get(id(rd.raw_node))
+                if m is None or m == v or m not in reg.savers[t]:
+                    continue
+                n += 1
+                a, b = _saved_expr(ix, sv, k), _saved_expr(ix, reg.savers[t][m], k)
+                if a is None or b is None:
+                    ctx.unmodelled(R, '%s v%d %r' % (t.rpartition('.')[2], v, k), 'the stored expression is not found in the saver chain')
+                    continue
+                sa_, sb_ = _shape(a[0], a[1]), _shape(b[0], b[1])
+                ctx.ob(R, '%s v%d key %r read by the v%d loader' % (t.rpartition('.')[2], v, k, m),
+                       'version %d and version %d store %r in the same layout' % (v, m, k), sa_ == sb_,
+                       detail='the version-%d loader of %s (%s) leaves key %r to %s, the loader of version %d, but the two versions store it '
+                              'differently (v%d: %s, v%d: %s): a record written in format %d is read with the layout of format %d'
+                              % (v, t.rpartition('.')[2], ld.name, k, rd.name, m, v, sa_, m, sb_, v, m), where=ld.where)
+    if n < 20:
+        raise AnalysisError('C12.e: only %d inherited key readings found' % n)
